@@ -321,7 +321,19 @@ impl Interval {
         } else {
             let stride = match (self.stride, other.stride) {
                 (0, _) => other.stride,
-                (_, 0) => self.stride << other.bytesize().as_bit_length(),
+                (_, 0) => {
+                    // The shifted stride may not be representable with 64 bits.
+                    // In that case we fall back to the largest power of two known to divide it.
+                    let shift = other.bytesize().as_bit_length();
+                    let shifted_stride = if shift < 64 {
+                        (self.stride as u128) << shift
+                    } else {
+                        u128::MAX
+                    };
+                    u64::try_from(shifted_stride).unwrap_or_else(|_| {
+                        1u64 << std::cmp::min(63, self.stride.trailing_zeros() as usize + shift)
+                    })
+                }
                 _ => 1u64 << other.stride.trailing_zeros(),
             };
             Interval {
